@@ -22,17 +22,19 @@ func (e *Engine) now(s *State) *Term {
 	e.usedModels = true
 	n := s.ghost["now#"]
 	s.ghost["now#"] = n + 1
-	t := c.Var(fmt.Sprintf("@now%d", n), 64)
-	s.mvars = append(s.mvars, t)
-	s.nd = append(s.nd, ndRec{Tag: fmt.Sprintf("@now%d", n), T: t})
-	lo := c.BV(1, 64)
+	// instants are whole multiples of the 0.5 s tick: now = ticks * T, ticks a 34-bit symbol, monotone
+	tv := c.Var(fmt.Sprintf("@now%d", n), 34)
+	ticks := c.Zext(tv, 64)
+	s.mvars = append(s.mvars, tv)
+	s.nd = append(s.nd, ndRec{Tag: fmt.Sprintf("@now%d.ticks", n), T: ticks})
+	lo := c.BV(2, 64)
 	if s.lastNow != nil {
 		lo = s.lastNow
 	}
-	s.pc = append(s.pc, c.And(c.Sle(lo, t), c.Sle(t, c.BV(1<<61, 64))))
+	s.pc = append(s.pc, c.Sle(lo, ticks))
 	s.model = nil
-	s.lastNow = t
-	return t
+	s.lastNow = ticks
+	return c.mulT(ticks)
 }
 
 func init() {
@@ -186,6 +188,12 @@ func (e *Engine) divBillion(s *State, d *Term) (*Term, *Term) {
 	c := e.c
 	if d.IsConst() {
 		return c.BV(d.Val/1000000000, 64), c.BV(d.Val%1000000000, 64)
+	}
+	if x, ok := c.isMulT(d); ok {
+		if _, _, ok := srange(x); ok {
+			// d = x ticks of 0.5 s: whole seconds = floor(x / 2)
+			return c.Ashr(x, c.BV(1, 64)), c.Mul(c.BvAnd(x, c.BV(1, 64)), c.BV(tickT, 64))
+		}
 	}
 	n := s.ghost["div#"]
 	s.ghost["div#"] = n + 1
